@@ -23,6 +23,15 @@ TOL_IMPROPER = 1e-6  # periodic/neumann GMRF priors: the code adds sqrt(eps)·I 
 
 
 # ----------------------------------------------------------------------------- helpers
+def maxit_for(n):
+    """'inner solver run to convergence': in exact arithmetic CGLS terminates within n passes; in floats up to about twice as
+    many are needed for condition numbers up to 1e5 (n+3 passes left errors of 1e-6 at n = 8 in the thorough tier).  The code's CGLS must NOT be iterated far beyond that: when the relative tolerance cannot be met (start close to
+    the solution) the over-iterated recurrence occasionally blows up (measured: 5 % of near starts with maxit = 8n+40, none of
+    the far starts) — outside the property, which is conditional on convergence.  Large dimensions: the tolerance is met from
+    the far starts used here, which ends the loop."""
+    return 2 * n + 6 if n <= 20 else 8 * n + 40
+
+
 def dense(M):
     return np.asarray(M.todense()) if hasattr(M, "todense") else np.asarray(M)
 
@@ -542,7 +551,7 @@ def run(ctx):
     ctx.trusted += ["numpy.linalg.inv (harness-side float evaluation of the documented moments, cross-checked against the model's exact ones)",
                     "monkeypatched numpy.random.randn / scripted rng (the normal draw is an input)"]
     ctx.assumptions += [f"GMRF priors with periodic/neumann boundary (improper; factor regularised by sqrt(eps) in the code) are compared to {TOL_IMPROPER}",
-                        f"inner solver run to convergence: maxit = 8n+40, tol = 1e-13; implementation vs exact model compared to {TOL} (relative to 1+max|.|)",
+                        f"inner solver run to convergence: maxit = 2n+6 (8n+40 for n > 20), tol = 1e-13; implementation vs exact model compared to {TOL} (relative to 1+max|.|)",
                         "square-root precisions enter the model as leaf data (exact rationals of the implementation's floats); "
                         f"their defining relation is checked through the moments to {TOL_LEAF}"]
     n_rto = 150 if not thorough else 150 * ctx.scale * 2
@@ -577,7 +586,7 @@ def run(ctx):
         try:
             with quiet():
                 target, _, _ = build_target(cuqi, cfg)
-                runner = StepRunner(cuqi, cfg, target, maxit=8 * n + 40, tol=1e-13)
+                runner = StepRunner(cuqi, cfg, target, maxit=maxit_for(n), tol=1e-13)
                 if cfg.get("special") == "scaled":
                     rec["rel"] = True
                     sm, sbig, tvec = probe_lengths(cfg, runner, gmrfP)
@@ -676,7 +685,22 @@ def check_rto(ctx, rec):
         ctx.disagree(key + ":sqrtprec-leaf", desc, "moments from the precisions", "moments from the factors handed to the sampler",
                      "sqrtprec / sqrtprecTimesMean are not square roots of the distribution's own precision")
         bad = True
+    nfail = len(ctx.failures)
+    ndis = [d_["key"] for d_ in ctx.disagreements if d_["key"].startswith(key + ":")]
     oracle_rto(ctx, rec, key, desc, model, force=bad)
+    explain_ties(ctx, key, desc, ndis, nfail)
+
+
+def explain_ties(ctx, key, desc, dkeys, nfail_before):
+    """a model/implementation disagreement at an input where the property's oracle fails is a failing input for that tie too"""
+    new = ctx.failures[nfail_before:]
+    if not new:
+        return
+    have = {f_["key"] for f_ in new}
+    for dk in sorted(set(dkeys)):
+        if dk not in have:
+            ctx.fail(dk, desc, "see " + ", ".join(sorted(have))[:200], "oracle fails at the same input",
+                     "model/implementation disagreement at an input on which the property's oracle fails")
 
 
 def improper(cfg):
@@ -750,9 +774,10 @@ def large_spec(r, dim, kind):
     if kind in ("cov", "prec"):
         val = banded(r, dim, True); D = val
     elif kind == "sqrtprec":
-        val = banded(r, dim, False); D = val.T @ val
+        val = banded(r, dim, False); val = np.diag(np.diag(val)) + 0.5 * (val - np.diag(np.diag(val))); D = val.T @ val
     else:
-        val = banded(r, dim, True); D = val.T @ val     # symmetric: S Sᵀ = Sᵀ S
+        val = banded(r, dim, True); val = np.diag(np.diag(val)) + 0.5 * (val - np.diag(np.diag(val)))
+        D = val.T @ val     # symmetric: S Sᵀ = Sᵀ S
     return {"kind": kind, "shape": "full", "value": val, "tag": f"{kind}-dense{dim}",
             "doc_prec": np.linalg.inv(D) if kind in ("cov", "sqrtcov") else D}
 
@@ -782,7 +807,7 @@ def run_large(ctx, cuqi, r, thorough):
         try:
             with quiet():
                 target, _, _ = build_target(cuqi, cfg)
-                runner = StepRunner(cuqi, cfg, target, maxit=8 * n + 40, tol=1e-13)
+                runner = StepRunner(cuqi, cfg, target, maxit=maxit_for(n), tol=1e-13)
                 m_impl, B_impl, e, xa, xb = read_affine(runner, r, n)
                 chain = (runner.chain_draws, runner.chain_states)
                 L1, L2, _ = leaf_factors(runner)
@@ -797,11 +822,11 @@ def run_large(ctx, cuqi, r, thorough):
         if relerr(B_impl @ B_impl.T, Cdoc, rel=True) > TOL_LARGE:
             ctx.fail(key + ":cov", desc, np.diag(Cdoc)[:6].tolist(), np.diag(B_impl @ B_impl.T)[:6].tolist(),
                      "B Bᵀ of the RTO draw is not the posterior covariance (dense parameter of dimension > 75)")
-        pred = m_impl + B_impl @ e
-        if relerr(xa, pred, rel=True) > TOL_LARGE or relerr(xb, pred, rel=True) > TOL_LARGE:
+        pred = m_impl + B_impl @ e      # (a sum of ~110 read-off columns: compared to 10·TOL_LARGE)
+        if relerr(xa, pred, rel=True) > 10 * TOL_LARGE or relerr(xb, pred, rel=True) > 10 * TOL_LARGE:
             ctx.fail(key + ":state", desc, pred[:6].tolist(), [xa[:6].tolist(), xb[:6].tolist()], "converged step depends on the current state")
         for t, (et, xt) in enumerate(zip(*chain)):
-            if relerr(xt, m_impl + B_impl @ et, rel=True) > TOL_LARGE:
+            if relerr(xt, m_impl + B_impl @ et, rel=True) > 10 * TOL_LARGE:
                 ctx.fail(key + ":chain", {**desc, "step": t + 1}, "m + B e", "differs", "chained step is not the posterior draw of its own normal draw")
                 break
         # the factor handed over is a square root of the specified precision (float check; reported through the moments above)
@@ -888,7 +913,7 @@ def history_records(ctx, cuqi, r, thorough):
                 if form == "tuple":
                     Amod = LinearModel(A.copy())
                     t1 = (d.copy(), Amod, lsp0["value"], mean0, pr0["spec"]["value"])
-                    r1 = StepRunner(cuqi, cfg0, t1, maxit=8 * n + 40, tol=1e-13)
+                    r1 = StepRunner(cuqi, cfg0, t1, maxit=maxit_for(n), tol=1e-13)
                     r1.chain([r.randn(r1.N) for _ in range(2)], np.zeros(n))
                     target = (d.copy(), Amod, cfg1["liks"][0]["spec"]["value"], cfg1["prior"]["mean"], cfg1["prior"]["spec"]["value"])
                     post = None
@@ -899,7 +924,7 @@ def history_records(ctx, cuqi, r, thorough):
                         x = Gaussian(mean=mean0.copy(), name="x", **spec_kwargs(pr0["spec"]))
                     y = Gaussian(mean=LinearModel(A.copy())(x), name="y0", **spec_kwargs(lsp0))
                     post = Posterior(y.to_likelihood(d), x)
-                    r1 = StepRunner(cuqi, cfg0, post, maxit=8 * n + 40, tol=1e-13)
+                    r1 = StepRunner(cuqi, cfg0, post, maxit=maxit_for(n), tol=1e-13)
                     first = r1.chain([np.zeros(r1.N), r.randn(r1.N)], np.zeros(n))[0]
                     m_first = doc_moments(cfg0, gmrf_precision(cuqi, pr0, n) if ptype == "gmrf" else None)[0]
                     if relerr(first, m_first) > TOL:
@@ -914,7 +939,7 @@ def history_records(ctx, cuqi, r, thorough):
                         else:
                             setattr(post.prior, pr0["spec"]["kind"], cfg1["prior"]["spec"]["value"])
                     target = post
-                runner = StepRunner(cuqi, cfg1, target, maxit=8 * n + 40, tol=1e-13)
+                runner = StepRunner(cuqi, cfg1, target, maxit=maxit_for(n), tol=1e-13)
                 rec["impl"] = read_affine(runner, r, n)
                 rec["leaf"] = leaf_factors(runner)
                 rec["chain"] = (runner.chain_draws, runner.chain_states)
@@ -960,12 +985,23 @@ def run_steps(ctx, cuqi, records, r, thorough):
 
 
 # ----------------------------------------------------------------------------- UGLA
+class _SkipChain(Exception):
+    pass
+
+
+class _SkipConfig(Exception):
+    pass
+
+
 def run_ugla(ctx, cuqi, r, thorough):
     from cuqi.distribution import Gaussian, LMRF, JointDistribution
     from cuqi.model import LinearModel
     import cuqi.experimental.mcmc as em
     import cuqi.sampler as ls
-    ncfg = 50 if not thorough else 50 * ctx.scale * 2
+    n_plain = 50 if not thorough else 50 * ctx.scale * 2
+    n_scaled = 24 if not thorough else 24 * ctx.scale * 2
+    n_hist = 10 if not thorough else 10 * ctx.scale
+    ncfg = n_plain + n_scaled + n_hist
     lines, meta = [], []
     for c in range(ncfg):
         n = int(r.randint(2, 6)); m = int(r.randint(n, n + 3))
@@ -988,17 +1024,55 @@ def run_ugla(ctx, cuqi, r, thorough):
         xk = (r.randint(-4, 5, size=n) / 2.0).astype(float)
         if np.linalg.cond(A.T @ sp["doc_prec"] @ A) > 1e5:
             continue
+        mode = "plain" if c < n_plain else ("scaled" if c < n_plain + n_scaled else "history")
+        scales = None
+        if mode == "scaled":
+            # noise std, LMRF scale and the data/state magnitude scaled by powers of ten; locations with D·location = 0 only
+            pw = lambda lo, hi: 10.0 ** int(r.randint(lo, hi + 1)) * float(r.choice([1.0, 2.0, 5.0]))
+            fn, fd = pw(-5, 5), pw(-3, 3)
+            scale = pw(-4, 4)
+            sp = scale_spec(sp, fn)
+            d = (d + 1.0) * fd; xk = xk * fd; beta = beta * fd * fd
+            if locmode == "vector" or (bc == "zero" and locmode != "zero"):
+                locmode = "zero"; loc = np.zeros(n)
+            loc = loc * fd
+            scales = {"noise_std": fn, "lmrf_scale": scale, "data": fd}
+        hist0 = None
+        if mode == "history":
+            # round 1 parameters (re-assigned below on the objects the posterior holds)
+            hist0 = {"sp": gen_spec(r, m, force=(sp["kind"], ["scalar", "vector", "diag", "full"][r.randint(4)])),
+                     "scale": float(r.choice([0.125, 8.0, 3.0])), "loc": np.repeat(float(r.randint(-3, 0)), n)}
+            if locmode == "vector" or (bc == "zero" and locmode != "zero"):
+                locmode = "zero"; loc = np.zeros(n)
+            if locmode == "scalar":
+                locmode = "const"
         desc = {"iface": iface, "n": n, "m": m, "A": A.tolist(), "d": d.tolist(), "lik": sp["tag"], "value": np.asarray(sp["value"]).tolist(),
-                "bc": bc, "scale": scale, "beta": beta, "location": loc.tolist(), "locmode": locmode, "x_k": xk.tolist()}
+                "bc": bc, "scale": scale, "beta": beta, "location": loc.tolist(), "locmode": locmode, "x_k": xk.tolist(), "mode": mode,
+                "scales": scales, "round1": None if hist0 is None else {"lik": np.asarray(hist0["sp"]["value"]).tolist(), "scale": hist0["scale"],
+                                                                         "location": hist0["loc"].tolist()}}
         try:
             with quiet():
-                x = LMRF(location=(float(loc[0]) if locmode == "scalar" else loc), scale=scale, bc_type=bc, geometry=n, name="x")
-                y = Gaussian(mean=LinearModel(A.copy())(x), name="y", **spec_kwargs(sp))
-                post = JointDistribution(x, y)(y=d)
+                if mode == "history":
+                    from cuqi.distribution import Posterior
+                    x = LMRF(location=hist0["loc"], scale=hist0["scale"], bc_type=bc, geometry=n, name="x")
+                    y = Gaussian(mean=LinearModel(A.copy())(x), name="y", **spec_kwargs(hist0["sp"]))
+                    post = Posterior(y.to_likelihood(d), x)
+                    if iface == "exp":
+                        s1 = em.UGLA(post, initial_point=xk.copy(), maxit=maxit_for(n), tol=1e-13, beta=beta); s1.initialize(); s1.step()
+                    else:
+                        ls.UGLA(post, x0=xk.copy(), maxit=maxit_for(n), tol=1e-13, beta=beta).sample(2)
+                    # ---- re-assignment on the objects the posterior holds
+                    setattr(post.likelihood.distribution, sp["kind"], sp["value"])
+                    post.prior.scale = scale
+                    post.prior.location = loc.copy()
+                else:
+                    x = LMRF(location=(float(loc[0]) if locmode == "scalar" else loc), scale=scale, bc_type=bc, geometry=n, name="x")
+                    y = Gaussian(mean=LinearModel(A.copy())(x), name="y", **spec_kwargs(sp))
+                    post = JointDistribution(x, y)(y=d)
                 D = dense(x._diff_op.get_matrix())
                 p = D.shape[0]
                 N = m + p
-                maxit, tol = 8 * n + 40, 1e-13
+                maxit, tol = maxit_for(n), 1e-13
 
                 def step(e, x0, init=None):
                     """one step from state x0 of a fresh sampler (exp: built and initialised at `init`, default 0)"""
@@ -1033,12 +1107,27 @@ def run_ugla(ctx, cuqi, r, thorough):
                     res = s.sample(len(draws) + 1)
                     assert rng.calls == len(draws)
                     return [np.array(res.samples[:, t + 1], dtype=float) for t in range(len(draws))]
+                L1 = dense(post.likelihood.distribution.sqrtprec)
+                tvec, sm = np.ones(N), 1.0
+                if mode == "scaled":
+                    wq = 1.0 / np.sqrt((D @ (xk - loc)) ** 2 + beta)
+                    Pq = (D.T * wq) @ D / scale
+                    if np.linalg.cond(A.T @ sp["doc_prec"] @ A + Pq) > 1e5:
+                        raise _SkipConfig()        # float comparisons need a moderate condition number
+                    Cq = np.linalg.inv(A.T @ sp["doc_prec"] @ A + Pq); mq = Cq @ (A.T @ sp["doc_prec"] @ d + Pq @ loc)
+                    Mq = np.vstack([L1 @ A, math.sqrt(1.0 / scale) * (np.sqrt(wq)[:, None] * D)])
+                    # the step starts at x_k (the state IS the input): errors are measured on the scale of the posterior and of x_k
+                    sm = max(float(np.max(np.abs(mq))), math.sqrt(float(np.max(np.diag(Cq)))), float(np.max(np.abs(xk))))
+                    col = np.max(np.abs(Cq @ Mq.T), axis=0)
+                    tvec = np.where(col > 0, sm / np.where(col > 0, col, 1.0), 1.0)
                 m0 = step(np.zeros(N), xk)
                 B = np.zeros((n, N))
                 for j in range(N):
-                    e = np.zeros(N); e[j] = 1.0
-                    B[:, j] = step(e, xk) - m0
-                L1 = dense(y.sqrtprec)
+                    e = np.zeros(N); e[j] = tvec[j]
+                    B[:, j] = (step(e, xk) - m0) / tvec[j]
+                chain_rec = None
+                if mode == "scaled":
+                    raise _SkipChain()
                 # the same step from the same state, sampler built with another history (initial point = the state itself)
                 m0_alt = step(np.zeros(N), xk, init=xk)
                 # a chain of three consecutive steps of one object; the affine map of steps 2 and 3 is re-read by
@@ -1061,6 +1150,10 @@ def run_ugla(ctx, cuqi, r, thorough):
                     B3_fresh[:, j] = step(e, x2) - m3_fresh
                 chain_rec = {"x_init": x_init, "f": [f1, f2], "x1": x1, "x2": x2, "m2": m2, "m3": m3, "B3": B3,
                              "m2_fresh": m2_fresh, "m3_fresh": m3_fresh, "B3_fresh": B3_fresh, "m0_alt": m0_alt}
+        except _SkipChain:
+            pass
+        except _SkipConfig:
+            continue
         except Exception as ex:
             ctx.case(f"ugla-{iface}", desc)
             ctx.note(f"UGLA refused {desc['iface']} {bc} loc={locmode}: {type(ex).__name__}: {str(ex)[:120]}")
@@ -1075,16 +1168,26 @@ def run_ugla(ctx, cuqi, r, thorough):
         wdoc = 1.0 / np.sqrt(tdoc ** 2 + beta)
         lines.append(f"ugla {n} {m} {qm(A)} {qv(d)} {qm(L1)} {spec_token(sp)} {p} {qm(D)} {qv(loc)} {q(s_)} {qv(w)} {q(1.0 / scale)} {qv(wdoc)}")
         Dloc_zero = not np.any(D @ loc)
-        meta.append((desc, iface, bc, locmode, Dloc_zero, scale, m0, B, A, d, sp, D, loc, wdoc, chain_rec, beta))
+        meta.append((desc, iface, bc, locmode, Dloc_zero, scale, m0, B, A, d, sp, D, loc, wdoc, chain_rec, beta, mode, tvec, sm))
     outs = ctx.lean.drive(lines)
     hist = {}
-    for (desc, iface, bc, locmode, Dloc_zero, scale, m0, B, A, d, sp, D, loc, wdoc, ch, beta), o in zip(meta, outs):
-        ctx.case(f"ugla-{iface}", desc)
-        ctx.case(f"ugla-chain-{iface}", {**desc, "x_init": ch["x_init"].tolist(), "draws": [v.tolist() for v in ch["f"]]})
+    for (desc, iface, bc, locmode, Dloc_zero, scale, m0, B, A, d, sp, D, loc, wdoc, ch, beta, mode, tvec, sm), o in zip(meta, outs):
+        ctx.case(f"ugla-{iface}" if mode == "plain" else f"ugla-{mode}-{iface}", desc)
+        if ch is not None:
+            ctx.case(f"ugla-chain-{iface}", {**desc, "x_init": ch["x_init"].tolist(), "draws": [v.tolist() for v in ch["f"]]})
+        if mode == "scaled":
+            # purely relative comparisons: offsets relative to the mean's magnitude, columns on the displacement of their probe
+            relerr = lambda a_, b_: (float(np.max(np.abs(np.asarray(a_) - np.asarray(b_))) / max(np.max(np.abs(a_)), np.max(np.abs(b_)), sm))
+                                     if np.ndim(a_) == 1 else _relerr(a_, b_, rel=True))
+            relB = lambda a_, b_: float(np.max(np.max(np.abs(np.asarray(a_) - np.asarray(b_)), axis=0) * tvec) / sm) if np.shape(a_) == np.shape(b_) else float("inf")
+        else:
+            relerr = lambda a_, b_: _relerr(a_, b_)
+            relB = relerr
         cls = "Dloc=0" if Dloc_zero else ("Dloc!=0:scale=1" if scale == 1.0 else "Dloc!=0:scale!=1")
         hist[cls] = hist.get(cls, 0) + 1
-        key = f"ugla:{iface}:{bc}:{cls}"
+        key = ("" if mode == "plain" else mode + ":") + f"ugla:{iface}:{bc}:{cls}"
         toks = o.split(" ")
+        nfail0, ndis0 = len(ctx.failures), len(ctx.disagreements)
         # harness-side float evaluation of the documented local Gaussian
         Lam = sp["doc_prec"]
         Pp = (D.T * wdoc) @ D / scale
@@ -1101,11 +1204,11 @@ def run_ugla(ctx, cuqi, r, thorough):
                 ctx.disagree(key + ":adjoint", desc, "flag 2 is not the transpose of flag 1", "-", "UGLA stacked operator"); bad = True
             if relerr(m0, mm) > TOL:
                 ctx.disagree(key + ":offset", desc, mm.tolist(), m0.tolist(), "offset of UGLA's affine map"); bad = True
-                if relerr(m0, ch["m0_alt"]) > TOL:
+                if ch is not None and relerr(m0, ch["m0_alt"]) > TOL:
                     ctx.fail(key + ":offset", {**desc, "initial_points": [[0.0] * len(m0), desc["x_k"]]}, ch["m0_alt"].tolist(), m0.tolist(),
                              "the draw from the state x_k depends on the point the sampler was initialised at: it is not a draw "
                              "from a Gaussian approximation at the current state")
-            if relerr(B, Bm) > TOL:
+            if relB(B, Bm) > TOL:
                 ctx.disagree(key + ":columns", desc, "model B", "differs", "linear part of UGLA's affine map"); bad = True
             if toks[5] == "singular":
                 md, Cd = md_f, Cd_f
@@ -1120,6 +1223,9 @@ def run_ugla(ctx, cuqi, r, thorough):
         if relerr(B @ B.T, Cd) > TOL:
             ctx.fail(key + ":cov", desc, np.asarray(Cd).tolist(), (B @ B.T).tolist(),
                      "B Bᵀ of the UGLA draw is not the covariance of the documented local Gaussian approximation at the current state")
+        explain_ties(ctx, key, desc, [d_["key"] for d_ in ctx.disagreements[ndis0:]], nfail0)
+        if ch is None:
+            continue
         # ---- consecutive steps of one object (the state has moved): the draw must be a function of the current state alone ...
         hkey = f"ugla:{iface}:{bc}:chain:history"
         cdesc = {**desc, "x_init": ch["x_init"].tolist(), "prefix_draws": [v.tolist() for v in ch["f"]],
